@@ -123,12 +123,16 @@ fn topo_paths<G>(g: G, v: &View<G::NodeId>, obs: &mut Obs) -> Result<(), Failure
 where
     G: IntoNeighborsDirected + IntoNodeIdentifiers + Visitable + Copy,
     G::NodeId: Nid,
+    G::Map: Default,
 {
     let a = v.a;
     let n = a.n;
     let r = a.reach();
     let rp = a.reach_plus();
-    let mut space = DfsSpace::new(g);
+    // the reused workspace is either sized for the graph or default-constructed (empty maps that
+    // every user has to grow to node_bound itself)
+    let mut space = if (n + a.m()) % 2 == 0 { DfsSpace::new(g) } else { DfsSpace::default() };
+    obs.label(if (n + a.m()) % 2 == 0 { "DfsSpace::new" } else { "DfsSpace::default" });
     // has_path_connecting, fresh and reused workspace
     for x in 0..n {
         for y in 0..n {
